@@ -199,6 +199,10 @@ class Gen:
                              "party[0]['hp'] = party[0]['hp'] + 2 if party else 0", "ys = xs", "d['lst'] = ys", "xs.append(3)",
                              "t = str(party[0]['hp']) if party else 'none'", "s = str(nest['inner']) + str(ys) + str(hero)",
                              "ys = list(ys)"])
+        if r.random() < self.f.get("retype", 0.06):
+            # rebinding a name to an EQUAL value of another type (True -> 1): what is shown afterwards is the new value
+            v = r.choice(BOOL_VARS)
+            return r.choice([f"{v} = int({v})", f"{v} = int({v}) + 0", f"{v} = 1 if {v} else 0"])
         k = r.randint(0, 13)
         if getattr(self, "loop_depth", 0) > 0 and k in (7, 8, 11, 12, 13):
             k = 3      # no list growth inside loops: repeated visits would grow lists exponentially
@@ -305,6 +309,10 @@ class Gen:
             cond = self.bool_expr(0, ints)
             if self.p("faults"):
                 cond = r.choice(["nope", "xs[99] > 1"])
+        extra = [v for v in (ints or []) if v not in INT_VARS and v not in ("it", "v")]
+        if extra and not join and self.p("param_conds"):
+            # a condition on a parameter of the passage the choice stands in (true or false depending on the call)
+            cond = f"{r.choice(extra)} {r.choice(['>', '<', '!=', '>=', '=='])} {r.randint(0, 4)}" + r.choice(["", f" or {r.choice(extra)} == None"])
         if cond is not None and r.random() < 0.15:
             cond = r.choice([" ", "  ", "\t"]) + cond + r.choice(["", " "])       # blanks inside the braces are kept by the compiler
         return {"k": "choice", "sticky": not self.p("one_time"), "cond": cond, "text": text,
@@ -391,7 +399,11 @@ class Gen:
         r = self.r
         self.count("render")
         k = r.random()
-        if k < 0.2:
+        if self.f.get("alias", 0) > 0 and r.random() < 0.6:
+            # the live objects themselves as directive data (real-code-only families): a later in-place change must not
+            # reach what was displayed earlier
+            args = r.choice(["xs", "hero", "party", "nest", "ys, k=hero", "xs, ys", "d"])
+        elif k < 0.2:
             args = ""
         elif k < 0.85:
             args = ", ".join([self.any_expr(ints) for _ in range(r.randint(1, 2))] +
@@ -423,6 +435,8 @@ class Gen:
                     if r.random() < pr:
                         items.append({"k": "stmt", "code": code, "comment": None})
         items.append({"k": "stmt", "code": f"n_{name} = n_{name} + 1", "comment": None})
+        if idx == 0 and self.hook_names and self.p("hook_early"):
+            items.append({"k": "hook", "add": True, "target": self.hook_names[0]})      # a hook is active from the first turn on
         if r.random() < self.f.get("probes", 0.5):
             # probe: what the passage sees as its parameter scope on entry
             items.append({"k": "stmt", "code": f"lk_{name} = dict(_local)", "comment": None})
